@@ -1106,7 +1106,18 @@ impl<'a, 'b> Gen<'a, 'b> {
         self.kind("loop");
         let counter = self.fresh_name("i");
         let k = self.c.range(0, self.cfg.max_loop_iters);
-        let label = if self.c.below(3) == 0 { Some(self.fresh_name("L")) } else { None };
+        let label = if self.c.below(3) == 0 {
+            // sometimes the label of an enclosing loop again: `break L` / `continue L` mean the innermost loop called L
+            let named: Vec<String> = self.loops.last().unwrap().iter().flatten().cloned().collect();
+            if !named.is_empty() && self.c.below(3) == 0 {
+                self.kind("shadowed-label");
+                Some(named[self.c.below(named.len())].clone())
+            } else {
+                Some(self.fresh_name("L"))
+            }
+        } else {
+            None
+        };
         let is_while = self.c.bool();
         // the counter lives in a block of its own so sibling loops do not clash
         self.push_block();
